@@ -372,6 +372,45 @@ def _first_overflow_witness():
     return None
 
 
+def _induction_value(f, L, t, use):
+    """polynomial (in the loop item) of the value a counted local holds when statement `use` runs: t = v0 before the loop and
+    t = t +/- c once per iteration, on every path to the back edge; None when not of that shape"""
+    from ..poly import poly, padd, psub, pmul
+    sts = [s for s in f.stores() if s.target == t]
+    if len(sts) != 2:
+        return None
+    ini = [s for s in sts if s.bb not in L['blocks']]
+    stp = [s for s in sts if s.bb in L['blocks']]
+    if len(ini) != 1 or len(stp) != 1:
+        return None
+    ini, stp = ini[0], stp[0]
+    v = stp.value
+    if not (tag(v) == 'bin' and v[1] in ('Sub', 'Add') and v[2] == t and tag(v[3]) == 'const' and isinstance(v[3][2], int)):
+        return None
+    if t in subterms(ini.value) or not f.cfg.dominates(ini.bb, L['header']):
+        return None
+    latches = [a for a, b in f.cfg.back_edges() if b == L['header'] and a in L['blocks']]
+    if not latches or not all(f.cfg.dominates(stp.bb, a) for a in latches):
+        return None
+    item = L['item']
+    rng = item[2]
+    if tag(rng) not in ('range', 'rangeincl'):
+        return None
+    iters = psub(poly(item), poly(rng[1]))          # completed iterations before this one
+    if stp.bb == use.bb:
+        before = (stp.idx if stp.idx is not None else 10 ** 6) < (use.idx if use.idx is not None else 10 ** 6)
+    elif f.cfg.dominates(stp.bb, use.bb):
+        before = True
+    elif f.cfg.dominates(use.bb, stp.bb):
+        before = False
+    else:
+        return None
+    if before:
+        iters = padd(iters, {(): 1})
+    c = v[3][2] * (1 if v[1] == 'Add' else -1)
+    return padd(poly(ini.value), pmul(iters, {(): c}))
+
+
 def d5_binom(prog, rep):
     from ..poly import poly, peq, padd, psub
     k = 'functions::combinatorial::binom_coeff'
@@ -386,9 +425,18 @@ def d5_binom(prog, rep):
     loops = [li for li in f.loop_info() if li['item'] is not None]
     acc = None
     upd = None
-    for s in f.stores():
-        if tag(s.target) == 'local' and s.target[1] != 0 and s.target in subterms(s.value) and any(s.bb in li['blocks'] for li in loops):
-            acc, upd = s.target, s
+    # the running coefficient: a local updated from itself inside the loop and returned; other self-updated locals (a numerator factor
+    # counted down beside it) are induction variables and are read as such below
+    cands = [s for s in f.stores() if tag(s.target) == 'local' and s.target[1] != 0 and s.target in subterms(s.value) and any(s.bb in li['blocks'] for li in loops)]
+    rets_ = f.return_values()
+    returned = [s for s in cands if s.target in rets_]
+    pick = returned if returned else cands
+    if len({s.target for s in pick}) == 1:
+        acc, upd = pick[-1].target, pick[-1]
+    elif pick:
+        rep.undecided('binom', key, 'several self-updated locals in the loop and none / more than one is returned', site_of(f.body), proof=False)
+        rep.floor('binom', 1, 'binom_coeff')
+        return
     problems = []
     undec = []
     if acc is None:
@@ -425,7 +473,13 @@ def d5_binom(prog, rep):
                     form = (m1, m2)
     if form is not None:
         m1, m2 = form
-        if not (peq(poly(m1), m_want) and peq(poly(m2), m_want)):
+        pm = []
+        for m_ in (m1, m2):
+            iv = _induction_value(f, L, m_, upd) if tag(m_) == 'local' else None
+            pm.append(iv if iv is not None else (poly(m_) if tag(m_) != 'local' else None))
+        if pm[0] is None or pm[1] is None:
+            undec.append('numerator factor %s is a local whose value per iteration is not read' % show(m1 if pm[0] is None else m2)[:30])
+        elif not (peq(pm[0], m_want) and peq(pm[1], m_want)):
             problems.append('split update q*m1 + r*m2/i uses m1 = %s, m2 = %s; both must be n - i + 1' % (show(m1)[:40], show(m2)[:40]))
     elif not bare:
         undec.append('update %s is not the recognised split form' % show(v)[:100])
